@@ -700,7 +700,7 @@ func checkBLSSig[K sbls.KeyGroup](t *rapid.T, sigFmt blsFmt, name string) {
 		vlib.Report(t, "C09/soundness/"+sub+"/library-signature-not-canonical", fmt.Sprintf("sig=%x ref=%s", sig, refSig.Stage))
 		return
 	}
-	kind := rapid.SampledFrom([]string{"bitflip", "bitflip", "flags", "uncompressed", "x+p", "negated", "plus-cofactor-point", "infinity", "other-sig"}).Draw(t, "alt")
+	kind := rapid.SampledFrom([]string{"bitflip", "bitflip", "flags", "uncompressed", "x+p", "negated", "plus-cofactor-point", "infinity", "other-sig", "hostile", "hostile"}).Draw(t, "alt")
 	var alt []byte
 	cs := sigFmt.g.CoordSize()
 	switch kind {
@@ -733,6 +733,8 @@ func checkBLSSig[K sbls.KeyGroup](t *rapid.T, sigFmt blsFmt, name string) {
 		alt[0] = 0xc0
 	case "other-sig":
 		alt = sbls.Sign(sk, append(append([]byte{}, msg...), 1))
+	case "hostile":
+		alt, _, _ = genBLS(t, sigFmt, rapid.SampledFrom(blsKinds).Draw(t, "hk"))
 	}
 	vlib.Class(sub, "alt="+kind)
 	if eq(alt, sig) {
@@ -781,5 +783,215 @@ func TestC09BLSSignatures(t *testing.T) {
 	})
 	t.Run("KeyG2SigG1", func(t *testing.T) {
 		vlib.Check(t, vlib.N(120, 400), func(t *rapid.T) { checkBLSSig[sbls.G2](t, blsFmts[0], "KeyG2SigG1") })
+	})
+}
+
+// ---------------------------------------------------------------------------
+// sign/bls functions that take signature bytes: Aggregate and VerifyAggregate are parsers in the
+// C09 sense. Aggregate(sigs) returns either an error, or the canonical compressed encoding of the
+// sum of the group elements that the inputs encode — which requires every input to be a valid
+// encoding of a member of the signature group.
+
+var aggLens = []int{1, 1, 1, 1, 1, 1, 2, 2, 3, 3, 4, 5, 8}
+
+func checkBLSAggregate[K sbls.KeyGroup](t *rapid.T, sigFmt blsFmt, name string) {
+	sub := "bls.Aggregate[" + name + "]"
+	var kg K
+	n := rapid.SampledFrom(aggLens).Draw(t, "n")
+	pos := rapid.IntRange(0, n-1).Draw(t, "pos")
+	kind := rapid.SampledFrom(append([]string{"honest", "honest", "honest-uncompressed", "sig-bitflip", "sig-bitflip", "sig-flags", "sig-x+p", "sig+cofactor-point"}, blsKinds...)).Draw(t, "kind")
+	vlib.Eval(sub)
+	sks := make([]*sbls.PrivateKey[K], n)
+	pubs := make([]*sbls.PublicKey[K], n)
+	msgs := make([][]byte, n)
+	sigs := make([]sbls.Signature, n)
+	base := vlib.Bytes(t, 0, 16, "msg")
+	for i := 0; i < n; i++ {
+		ikm := make([]byte, 32)
+		vlib.FillRandom(t, ikm, fmt.Sprintf("ikm%d", i))
+		sk, err := sbls.KeyGen[K](ikm, nil, nil)
+		if err != nil {
+			t.Fatalf("harness: KeyGen: %v", err)
+		}
+		sks[i], pubs[i] = sk, sk.PublicKey()
+		msgs[i] = append(append([]byte{}, base...), byte(i))
+		sigs[i] = sbls.Sign(sk, msgs[i])
+	}
+	honest := append([]byte{}, sigs[pos]...)
+	refH := decode.BLSDecode(sigFmt.g, honest)
+	if !refH.OK {
+		vlib.Report(t, "C09/soundness/"+sub+"/library-signature-not-canonical", fmt.Sprintf("sig=%x ref=%s", honest, refH.Stage))
+		return
+	}
+	var alt []byte
+	switch kind {
+	case "honest":
+		alt = honest
+	case "honest-uncompressed":
+		alt = decode.BLSEncode(sigFmt.g, refH.P, false)
+	case "sig-bitflip":
+		alt, _ = flipBit(t, honest, []int{0, 0, len(honest) - 1}, "flip")
+	case "sig-flags":
+		alt = append([]byte{}, honest...)
+		alt[0] = alt[0]&0x1f | byte(rapid.IntRange(0, 7).Draw(t, "flagbits"))<<5
+	case "sig-x+p":
+		limbs := []*big.Int{refH.P.X.A}
+		if sigFmt.g == 2 {
+			limbs = []*big.Int{refH.P.X.B, refH.P.X.A}
+		}
+		w := rapid.IntRange(0, len(limbs)-1).Draw(t, "limb")
+		limbs[w] = new(big.Int).Add(limbs[w], decode.BLSP)
+		if (w == 0 && limbs[w].BitLen() > 381) || limbs[w].BitLen() > 384 {
+			limbs[w] = new(big.Int).Add(decode.BLSP, big.NewInt(int64(rapid.IntRange(0, 9).Draw(t, "small"))))
+		}
+		alt = rawEncode(sigFmt.g, honest[0]&0xe0, limbs...)
+	case "sig+cofactor-point":
+		T := decode.WMul(decode.BLSR, drawCurvePoint(t, sigFmt.g, nil, "pt"))
+		alt = decode.BLSEncode(sigFmt.g, decode.WAdd(refH.P, T), rapid.Bool().Draw(t, "comp"))
+	default:
+		alt, _, _ = genBLS(t, sigFmt, kind)
+	}
+	sigs[pos] = alt
+	vlib.Class(sub, fmt.Sprintf("n=%d", n))
+	vlib.Class(sub, "kind="+kind)
+	// reference: every input must decode (exact length for its flag, range, curve, subgroup); expected = compressed sum
+	allOK, badStage, badIdx := true, "ok", -1
+	sum := decode.WPoint{Inf: true}
+	for i, s := range sigs {
+		r := decode.BLSDecode(sigFmt.g, s)
+		if !r.OK {
+			if allOK {
+				allOK, badStage, badIdx = false, r.Stage, i
+			}
+			continue
+		}
+		sum = decode.WAdd(sum, r.P)
+	}
+	in := make([]sbls.Signature, n)
+	for i := range sigs {
+		in[i] = append([]byte{}, sigs[i]...)
+	}
+	var out sbls.Signature
+	var err error
+	if pn, _ := vlib.Catch(func() { out, err = sbls.Aggregate(kg, in) }); pn != nil {
+		vlib.Class(sub, "panic(counted; property C10): "+vlib.PanicClass(pn))
+		return
+	}
+	accepted := err == nil
+	acc := "rejected"
+	if accepted {
+		acc = "accepted"
+	}
+	vlib.Class(sub, "ref-stage="+badStage+":"+acc)
+	if !eq(alt, honest) {
+		vlib.NonTrivial(sub, "adversarial:"+acc, []byte(fmt.Sprint(n, pos)), alt, honest)
+		vlib.Class(sub, fmt.Sprintf("adversarial:%s:%s", kind, acc))
+	}
+	vlib.Sample(sub, kind+":"+acc, fmt.Sprintf("%s n=%d pos=%d kind=%s sig'=%s → %s (reference: %s)", sub, n, pos, kind, vlib.Hex(alt), acc, badStage))
+	for i := range in {
+		if !eq(in[i], sigs[i]) {
+			vlib.Class(sub, "Aggregate modified its input slice (counted only; property C11)")
+		}
+	}
+	if !accepted {
+		if allOK && (kind == "honest" || kind == "honest-uncompressed" || kind == "valid" || refConstructed(kind)) {
+			vlib.Report(t, "C09/completeness/"+sub+"/rejects-valid-encoding", fmt.Sprintf("n=%d pos=%d kind=%s sig'=%x: every input is a canonical encoding of a member, yet Aggregate fails: %v", n, pos, kind, alt, err))
+		} else if allOK {
+			vlib.Class(sub, "ref-accepts/circl-rejects(counted only)")
+		}
+		return
+	}
+	if !allOK {
+		vlib.Report(t, "C09/soundness/"+sub+"/"+badStage, fmt.Sprintf("n=%d pos=%d kind=%s: input %d = %x is not an encoding of a member (reference: %s) but Aggregate succeeds with %x", n, pos, kind, badIdx, sigs[badIdx], badStage, out))
+		return
+	}
+	want := decode.BLSEncode(sigFmt.g, sum, true)
+	if !eq(out, want) {
+		vlib.Report(t, "C09/soundness/"+sub+"/output-not-canonical-aggregate", fmt.Sprintf("n=%d pos=%d kind=%s sig'=%x: Aggregate returns %x, the compressed sum of the decoded inputs is %x", n, pos, kind, alt, out, want))
+		return
+	}
+	// the output is itself an encoding the library serialised: it must decode again, into the subgroup
+	q := sigFmt.new()
+	if e := q.SetBytes(out); e != nil || !sigFmt.inG(q) {
+		vlib.Report(t, "C09/completeness/"+sub+"/output-does-not-decode", fmt.Sprintf("n=%d kind=%s out=%x err=%v", n, kind, out, e))
+		return
+	}
+	// VerifyAggregate as a parser of the aggregate: honest aggregate verifies, altered encodings verify only if
+	// the reference accepts them
+	if !sum.Inf && decode.WEqual(decode.BLSDecode(sigFmt.g, alt).P, refH.P) {
+		var ok bool
+		if pn, _ := vlib.Catch(func() { ok = sbls.VerifyAggregate(pubs, msgs, out) }); pn != nil {
+			vlib.Class(sub, "panic(counted; property C10): "+vlib.PanicClass(pn))
+			return
+		}
+		if !ok {
+			vlib.Report(t, "C09/completeness/bls.VerifyAggregate["+name+"]/honest-aggregate-rejected", fmt.Sprintf("n=%d agg=%x", n, out))
+			return
+		}
+		vsub := "bls.VerifyAggregate[" + name + "]/signature"
+		vlib.Eval(vsub)
+		akind := rapid.SampledFrom([]string{"bitflip", "bitflip", "flags", "uncompressed", "x+p", "infinity-stray", "hostile"}).Draw(t, "agg-alt")
+		var a2 []byte
+		switch akind {
+		case "bitflip":
+			a2, _ = flipBit(t, out, []int{0, 0, len(out) - 1}, "aflip")
+		case "flags":
+			a2 = append([]byte{}, out...)
+			a2[0] = a2[0]&0x1f | byte(rapid.IntRange(0, 7).Draw(t, "aflagbits"))<<5
+		case "uncompressed":
+			a2 = decode.BLSEncode(sigFmt.g, sum, false)
+		case "x+p":
+			limbs := []*big.Int{sum.X.A}
+			if sigFmt.g == 2 {
+				limbs = []*big.Int{sum.X.B, sum.X.A}
+			}
+			w := rapid.IntRange(0, len(limbs)-1).Draw(t, "alimb")
+			limbs[w] = new(big.Int).Add(limbs[w], decode.BLSP)
+			if (w == 0 && limbs[w].BitLen() > 381) || limbs[w].BitLen() > 384 {
+				limbs[w] = new(big.Int).Set(decode.BLSP)
+			}
+			a2 = rawEncode(sigFmt.g, out[0]&0xe0, limbs...)
+		case "infinity-stray":
+			a2, _, _ = genBLS(t, sigFmt, "infinity-stray")
+		default:
+			a2, _, _ = genBLS(t, sigFmt, rapid.SampledFrom(blsKinds).Draw(t, "hk"))
+		}
+		if eq(a2, out) {
+			return
+		}
+		var ok2 bool
+		if pn, _ := vlib.Catch(func() { ok2 = sbls.VerifyAggregate(pubs, msgs, a2) }); pn != nil {
+			vlib.Class(vsub, "panic(counted; property C10): "+vlib.PanicClass(pn))
+			return
+		}
+		a := "rejected"
+		if ok2 {
+			a = "accepted"
+		}
+		vlib.NonTrivial(vsub, "adversarial:"+a, out, a2)
+		vlib.Class(vsub, "adversarial:"+akind+":"+a)
+		if ok2 {
+			r2 := decode.BLSDecode(sigFmt.g, a2)
+			if !r2.OK {
+				vlib.Report(t, "C09/soundness/"+vsub+"/"+r2.Stage, fmt.Sprintf("n=%d agg'=%x verifies; the reference rejects the aggregate point (%s)", n, a2, r2.Stage))
+				return
+			}
+			if !decode.WEqual(r2.P, sum) {
+				vlib.Class(vsub, "DIFFERENT-POINT-VERIFIES(counted only; not a decoding defect): "+akind)
+			} else if len(a2) == len(out) {
+				vlib.Report(t, "C09/soundness/"+vsub+"/second-encoding-verifies", fmt.Sprintf("n=%d agg=%x agg'=%x both verify and decode to the same point", n, out, a2))
+			}
+		}
+	}
+}
+
+func TestC09BLSAggregate(t *testing.T) {
+	defer vlib.Done()
+	selftest(t)
+	t.Run("KeyG1SigG2", func(t *testing.T) {
+		vlib.Check(t, vlib.N(220, 700), func(t *rapid.T) { checkBLSAggregate[sbls.G1](t, blsFmts[1], "KeyG1SigG2") })
+	})
+	t.Run("KeyG2SigG1", func(t *testing.T) {
+		vlib.Check(t, vlib.N(220, 700), func(t *rapid.T) { checkBLSAggregate[sbls.G2](t, blsFmts[0], "KeyG2SigG1") })
 	})
 }
